@@ -127,6 +127,9 @@ func Harness_C09_PostProcessIdempotent() {
 	}
 	if chainEarly {
 		nd.Assert("postprocess:idempotent:mixin-chain-whose-mixer-sorts-first", proto.Equal(once, twice))
+	} else if ppMode != "off" {
+		// the development switch SYSL_DEV_RENEST_FLATTENED_TYPES (thorough only)
+		nd.Assert("postprocess:idempotent:renest-mode-"+ppMode, proto.Equal(once, twice))
 	} else {
 		nd.Assert("postprocess:idempotent", proto.Equal(once, twice))
 	}
